@@ -20,7 +20,7 @@ CHECKS = {
          "trees from API histories, parsed texts and boundary value pools under sampled/all option words, precisions, tab widths and "
          "default formats, with an independent Python implementation of the property's equivalence (glibc-exact printf rendering, "
          "correctly rounded float) and text idempotence."),
-   note=TB + "Not a theorem: the end-to-end composition (needs parser completeness). Known finding C01:member-name~/^(true|false)$/i is reproduced deliberately on every run.",
+   note=TB + "Not a theorem: the end-to-end composition (token boundaries + tree rebuilding through the parser). Known finding C01:member-name~/^(true|false)$/i is reproduced deliberately on every run.",
    technique='per-lexeme round-trip theorems in Lean 4 + write/read/compare direct oracle + byte-exact writer correspondence', ref='§5 C01'),
  'C02': dict(
    text=("Proved: C02_sound — whenever the model of bison's yyparse loop over the TRANSLATED tables (with the real scanner model and the real "
@@ -28,13 +28,17 @@ CHECKS = {
          "rules in the tables' symbol numbering); the LR soundness argument is made static by a kernel-decided check of the tables against "
          "a certificate of automaton edges (every reduction available in a state finds exactly its right-hand side on every path into "
          "that state; shift/goto targets have the right accessing symbols; only `configuration $end` reaches the final state) plus a loop "
-         "invariant attaching a derivation tree to every stack entry; C02_rules_match (yyr1/yyr2 agree with the grammar). Completeness "
-         "and the denotation of the tree are decided to a bound: every viable token-kind prefix up to the bound plus every one-token "
+         "invariant attaching a derivation tree to every stack entry; C02_rules_match (yyr1/yyr2 agree with the grammar). C02_complete — "
+         "the converse: whenever the token kinds of the input are derivable from the grammar, the parser over the translated tables never "
+         "reports a syntax error (it accepts, or stops with a semantic error — duplicate name, mismatched element —, an include/scan "
+         "error or stack exhaustion); proved with a second kernel-decided certificate (per state, the set of viable lookaheads closed "
+         "under default reductions) and a viable-prefix invariant. The error classes and the denotation of the tree are decided to a "
+         "bound: every viable token-kind prefix up to the bound plus every one-token "
          "invalid extension, rendered with varied spellings, duplicates and mixed arrays injected and tracked, overrides off/on, against "
          "an independent recogniser of the documented grammar (direct oracle: accept/reject and error class by first offence) and against "
          "the model (result, error text/line, full tree with source lines)."),
-   note=TB + "Completeness (derivable => accepted) is exhaustive-to-bound (quick: length 6, thorough: 9), not a theorem; known findings C02:string-element-mismatch-line and C02:parser-stack-limit are reproduced by the model.",
-   technique='LR soundness theorem over translated LALR tables (kernel-decided certificate check + loop invariant) in Lean 4; exhaustive-to-bound correspondence against an independent grammar recogniser', ref='§5 C02'),
+   note=TB + "Which semantic error is reported first and which tree an accepted text denotes are decided by exhaustive-to-bound correspondence (quick: length 6, thorough: 9) and the model-as-specification, not by a grammar-level theorem; when a translated action or table changes, the failing-input search runs against the model over the committed reference translation; known findings C02:string-element-mismatch-line and C02:parser-stack-limit are reproduced by the model.",
+   technique='LR soundness and completeness theorems over translated LALR tables (kernel-decided certificate checks + loop invariants) in Lean 4; exhaustive-to-bound correspondence against an independent grammar recogniser', ref='§5 C02'),
  'C04': dict(
    text=("Theorems: C04_step_all — EVERY operation of the API alphabet, reads included, with arbitrary arguments, succeeding or failing, "
          "preserves the well-formedness invariant (root nameless group; distinct valid member names; nameless list/array elements; arrays "
@@ -77,11 +81,12 @@ CHECKS = {
          "C08_integer64 (decimal, or octal with a leading 0; int when it fits 32 bits, else int64, an L suffix forcing int64; rejected when "
          "not representable or when an octal literal holds 8/9), C08_parse_hex / C08_hex / C08_hex64 (the 32/64-bit pattern spelled, rejected "
          "beyond the width), C08_wrap*_pattern, C08_float (rejected exactly when the correctly rounded value is infinite), "
-         "C08_ofRat_not_nan, and C08_actions which ties rules 37-41 of the compiled scanner to those catalogued actions (their C text is "
+         "C08_ofRat_not_nan, ofRat_nearest (the reference decimal-to-binary64 conversion the model uses IS the correctly rounded one: no "
+         "other double is closer, ties go to the even significand, overflow exactly at the documented threshold), and C08_actions which ties rules 37-41 of the compiled scanner to those catalogued actions (their C text is "
          "re-translated from scanner.c on every run). libconfig_parse_integer/parse_hex64/atof are tied by correspondence; an independent "
          "Python big-integer / correctly-rounded float reading of each literal is the direct oracle (boundaries 2^31, 2^32, 2^63, 2^64, "
          "1..22 digits, floats with up to 300 digits and exponents -400..400)."),
-   note=TB + "Correct rounding of the decimal-to-binary conversion itself is glibc's (strtod) and is compared with the exact Lean implementation and with Python's float() on every run; it is not proved.",
+   note=TB + "That glibc's strtod computes the correctly rounded value is an assumption about libc: it is compared with the proved-correct Lean conversion and with Python's float() on every run.",
    technique='theorems over all spellings in Lean 4 + translated action catalogue + differential correspondence with an exact-arithmetic oracle', ref='§5 C08'),
  'C09': dict(
    text=("History independence proved: the error record and result of a read (C09_read_independent, C09_readCore_independent) and of "
@@ -137,17 +142,21 @@ CHECKS = {
          "the handler); C13_kth/C13_nofault/C13_beyond — in the abstract program model a failing request invokes the handler in the very "
          "action that made it and nothing later runs. Fault enumeration on the real code: for six scenarios (parse of strings/names/nested "
          "aggregates/includes from string and file, API construction across the 16-child growth steps, set_string, set_include_dir + "
-         "include, write, overrides) the k-th allocation requested by library code is failed for EVERY k; each must reach the handler."),
+         "include, write, overrides; strings assembled from several pieces across the 64-byte string-buffer growth steps) the k-th "
+         "allocation requested by library code is failed for EVERY k; each must reach the handler; and two failures in one process "
+         "with a handler that leaves by longjmp (as the C++ layer's throw does) must both reach it."),
    note=TB + "Not decided: behaviour after a handler that returns (documented as undefined); allocations inside libc. The C++ bad_alloc path is exercised under C17.",
-   technique='kernel-decided theorem over a translated allocation-site inventory + abstract failure model in Lean 4 + exhaustive single-fault enumeration', ref='§5 C13'),
+   technique='kernel-decided theorem over a translated allocation-site inventory + abstract failure model in Lean 4 + exhaustive single-fault (and repeated-fault) enumeration', ref='§5 C13'),
  'C14': dict(
    text=("Partial. Proved: C14_statics / C14_imports — over inventories re-extracted on every run (nm on the compiled objects + preprocessed "
-         "source), the only static object ever written is the fatal-error function pointer and no imported function is on the POSIX "
+         "source; a static array counts as written as soon as it is used at all), the only static object ever written is the fatal-error "
+         "function pointer and no imported function is on the POSIX "
          "not-thread-safe list; C14_serial / C14_independent — in the footprint model every schedule gives every thread exactly the state "
          "and outputs of running alone (induction over the schedule, any number of threads, any programs). Validation on the real code: "
          "2..16 threads run independent workloads (parse from string and file with includes, failing parses, edits, removals, lookups, "
-         "writes with different options/precisions, write_file + read back) under ThreadSanitizer; each thread's transcript is compared "
-         "with its serial run."),
+         "writes with different options/precisions incl. huge floats and precisions above 15, write_file + read back) under "
+         "ThreadSanitizer, the very first library use of the process being concurrent; each thread's transcript is compared with its "
+         "serial run."),
    note=TB + "The C memory model and libc internals are outside the model; TSan sees executed paths only.",
    technique='kernel-decided theorems over translated static-object/import inventories + commutation theorem in Lean 4 + TSan transcript comparison', ref='§5 C14'),
  'C15': dict(
@@ -162,13 +171,15 @@ CHECKS = {
  'C20': dict(
    text=("C20_chunking: the generated matcher's result (rule, length) is independent of how the input is cut into buffer refills "
          "(scanPartial_append, for every table set, every chunking, no size bound); C20_string_stream: the string and stream entry points "
-         "are the same function of a NUL-free text; C20_file_is_stream_core. Tied to the code by reading the same bytes through "
+         "are the same function of a NUL-free text; C20_file_stream — reading a file is a simulation of reading the stream of its bytes: same "
+         "result, same error text and line, same tree up to the recorded file name (which only the file entry point knows), for every "
+         "world, text and fuel (a relation between the two parser runs carried through yylex and the parser loop); C20_three_entries "
+         "combines them. Tied to the code by reading the same bytes through "
          "config_read_string, config_read on fmemopen and on an fopencookie stream delivering 1/7/4095/4096/8191/8192/8193/random-sized "
-         "pieces, and config_read_file, with every token kind slid across the 8 KiB, 16 KiB (and 32 KiB) boundaries; direct oracle: equal "
-         "result, error text, line and tree."),
-   note=TB + "Equality of the file entry point with the others up to the reported file name is checked by correspondence, the theorem covers string/stream; "
-        "flex's buffer pointer arithmetic (yy_get_next_buffer) is generated code outside the model, exercised under ASan.",
-   technique='chunking-independence theorem in Lean 4 + differential correspondence at buffer boundaries', ref='§5 C20'),
+         "pieces, and config_read_file, with every token kind slid across the 8 KiB, 16 KiB (and 32 KiB) boundaries and single tokens "
+         "that exactly fill or overflow flex's 16 KiB buffer; direct oracle: equal result, error text, line and tree."),
+   note=TB + "flex's buffer pointer arithmetic (yy_get_next_buffer) is generated code outside the model, exercised under ASan.",
+   technique='chunking-independence and entry-point simulation theorems in Lean 4 + differential correspondence at buffer boundaries', ref='§5 C20'),
  'C16': dict(
    text=("Conservation theorems: with a destructor registered, every operation (C16_conservation) and every read "
          "(C16_conservation_read, by an invariant over the parser loop) logs exactly the hooks that leave the tree — as a permutation "
